@@ -434,7 +434,9 @@ def _serialize_str_array(strings: list[str]) -> ir.CellArray:
     return ir.CellArray(
         shape=(len(strings),),
         data=[
-            ir.ObjectArray(shape=(len(s),), data=[ir.String(s)], ty=ir.TypeTag.char)
+            ir.ObjectArray(
+                shape=(len(s.encode("utf-8")),), data=[ir.String(s)], ty=ir.TypeTag.char
+            )
             for s in strings
         ],
     )
